@@ -113,7 +113,7 @@ func init() {
 			return nil
 		},
 		"vsymNowNS": func(m *Machine, _ *frame, _ *ssa.Function, a []value) value {
-			return m.tt.Const(64, uint64(m.clock))
+			return m.tt.Const(64, uint64(m.clock-1_000_000_000))
 		},
 	}
 
